@@ -251,6 +251,13 @@ class UnSSADiGraph(object):
             # Defined in the same AssignBlock -> interfere
             return True
 
+        # A copy variable is defined at the end of each parent of its Phi
+        # block, whatever its rank in the dominance order
+        for new_var, other in ((node_a, node_b), (node_b, node_a)):
+            if (new_var in self.new_var_to_srcs_parents and
+                self.ssa_def_is_live_at(new_var, other, parent)):
+                return True
+
         if self.var_to_varinfo[node_a].live_index < self.var_to_varinfo[node_b].live_index:
             return self.ssa_def_is_live_at(node_a, node_b, parent)
         return self.ssa_def_is_live_at(node_b, node_a, parent)
@@ -269,36 +276,18 @@ class UnSSADiGraph(object):
             # No need to consider interference if equal
             return False
 
-        merge_a_list = self.merge_set_sort(merge_a)
-        merge_b_list = self.merge_set_sort(merge_b)
-        dom = []
-        while merge_a_list or merge_b_list:
-            if not merge_a_list:
-                _, current = merge_b_list.pop(0)
-            elif not merge_b_list:
-                _, current = merge_a_list.pop(0)
-            else:
-                # compare live_indexes (standing for dominance)
-                if merge_a_list[-1] < merge_b_list[-1]:
-                    _, current = merge_a_list.pop(0)
-                else:
-                    _, current = merge_b_list.pop(0)
-            while dom and not self.ssa_def_dominates(dom[-1], current):
-                dom.pop()
-
-            # Don't test node in same merge_set
-            if (
-                    # Is stack not empty?
-                    dom and
-                    # Trivial non-interference if dom.top() and current come
-                    # from the same merge set
-                    not (dom[-1] in merge_a and current in merge_a) and
-                    not (dom[-1] in merge_b and current in merge_b) and
-                    # Actually test for interference
-                    self.merge_nodes_interfere(current, dom[-1], parent)
-            ):
+        # The copy variables created for the Phi nodes are defined at the end
+        # of each parent of their block, not where the dominance order places
+        # them: the linear walk of the dominance forest misses their
+        # interferences. Test every couple instead (merge sets are small).
+        for _, node_a in self.merge_set_sort(merge_a):
+            if node_a in merge_b:
+                continue
+            for _, node_b in self.merge_set_sort(merge_b):
+                if node_b in merge_a:
+                    continue
+                if self.merge_nodes_interfere(node_a, node_b, parent):
                     return True
-            dom.append(current)
         return False
 
     def aggressive_coalesce_parallel_copy(self, parallel_copies, parent):
